@@ -171,7 +171,7 @@ K_NEWREJ = [
 K_DRAW = [
     H("c10_sampled_chance_cache", f"{DATA}::draws", "quick", functions=["SampledChance::{new,sample,reset}"],
       stubs=["H-draw hook: the WeightedAliasIndex/thread_rng draw is replaced by an arbitrary index < 3 that is logged"], playback=False,
-      bounds="3 outcomes; cache state any of 0..=3", role="one draw per pass, cached outcome reused, fresh draw after reset"),
+      bounds="3 outcomes; API sequence new, sample x3, reset, sample x2; every draw value", role="one draw per pass, outcome reused within the pass, fresh draw after reset"),
 ]
 
 REGISTRY["C05"] = {
@@ -188,4 +188,102 @@ MANIFEST_TEXT["C05"] = {
     "technique": "bounded model checking (Kani/CBMC SAT) of the solver's kernels, driver loops with stubbed bodies, and thread-count arithmetic",
     "text": "Every kernel that produces strategy entries or bounds is decided total and well-formed for all floats within +-1e300 (ties, -0.0, all-non-positive regrets, nothing accumulated, softmax with exp abstracted by contract), the constructor's panic set is exactly the documented one, a zero budget returns infinite bounds and uniform strategies, and the thread-count overflow is reported as the documented error. Sequential code only.",
     "note": "Compositional: whole solve runs (23M-variable formulas) are out of reach, so 'never panics' is decided per unit; deadlock/hang, pool errors and lock contention are outside. exp is a contract model.",
+}
+
+# ---------------------------------------------------------------------------------------------
+VAN = "solve::vanilla::verif_kani"
+EXT = "solve::external::verif_kani"
+_DRV_STUBS = ["vanilla::recurse_single -> ghost stub (counts traversals, checks root and unit reach, ordering)",
+              "<RegretInfoset as PlayerRecurse>::advance -> ghost stub (returns a symbolic bound from a table k/4, checks iteration index and ordering)"]
+K_DRIVER = [
+    H("c09_generic_single_driver_n3", f"{VAN}::driver", "quick", functions=["vanilla::solve_generic_single (loop, per-player summation, comparison, break, final normalisation)", "RegretInfoset::into_avg_strat"],
+      stubs=_DRV_STUBS, playback=False, native="c09",
+      bounds="budget N in 0..=3; threshold any of the 2^64 f64 bit patterns; per-infoset bounds k/4 in [0,4], 3 infosets (2+1); unwind 6",
+      role="iterations run == first t with max(b1,b2) < r else N; returned bounds are those of that iteration; one traversal then one update(t) per infoset per iteration"),
+    H("c09_generic_single_driver_n4", f"{VAN}::driver", "thorough", functions=["vanilla::solve_generic_single"],
+      stubs=_DRV_STUBS, playback=False, native="c09", bounds="as above with budget N in 0..=4; unwind 7", role="same"),
+]
+_POWHALF = "f64::powf -> records (base, exponent, number of calls) and returns 0.5"
+K_ADVANCE = [
+    H("c08_advance_order_plain", f"{VAN}::advance", "quick", functions=["<RegretInfoset as PlayerRecurse>::advance"],
+      bounds="2 actions, integer regrets in [-8,8], (alpha,beta,weight) in {-inf,0,+inf}^3, gamma 0, t in 1..=8",
+      role="update == regret-match on undiscounted regrets, then discount regrets(t), then average, then report 2*max(R,0)/t of the discounted regrets"),
+    H("c08_advance_order_mutex", f"{VAN}::advance", "quick", functions=["<MutexRegretInfoset as MutexPlayerRecurse>::advance"],
+      bounds="as above on AtomicF64 / Mutex accumulators", role="same order for the multi-threaded infoset type"),
+    H("c08_advance_average_index_plain", f"{VAN}::advance", "quick", functions=["<RegretInfoset as PlayerRecurse>::advance", "RegretParams::discount_average_strat"],
+      stubs=[_POWHALF], playback=True, bounds="gamma in {1,2,3}, t in 1..=16", role="average discounted once per update with base t/(t+1), exponent gamma"),
+    H("c08_external_advance_order_first", f"{EXT}::steps", "quick", functions=["<CachedInfoset as ActiveInfo>::advance::<true>"],
+      bounds="2 actions, integer regrets, special exponents, gamma 0, t in 1..=8", role="same order (external, first player)"),
+    H("c08_external_advance_order_second", f"{EXT}::steps", "quick", functions=["<CachedInfoset as ActiveInfo>::advance::<false>"],
+      bounds="as above", role="same order (external, second player)"),
+    H("c08_external_average_index_first", f"{EXT}::steps", "quick", functions=["<CachedInfoset as ActiveInfo>::advance::<true>"],
+      stubs=[_POWHALF], playback=True, bounds="gamma in {1,2,3}, t in 1..=16", role="first player's average discounted with index t-1"),
+    H("c08_external_average_index_second", f"{EXT}::steps", "quick", functions=["<CachedInfoset as ActiveInfo>::advance::<false>"],
+      stubs=[_POWHALF], playback=True, bounds="gamma in {1,2,3}, t in 1..=16", role="second player's average discounted with index t"),
+]
+K_C10 = [
+    H("c10_multinomial_inverse_cdf", "solve::multinomial::verif_kani", "quick", functions=["<Multinomial as Distribution<usize>>::sample::<SymRng>", "Multinomial::new", "rand Standard f64 (word >> 11) * 2^-53"],
+      pbfile="h_multinomial",
+      bounds="all 2^64 generator words; weight vectors k/8 summing to 1 with 2..4 entries (zeros allowed); unwind 6",
+      role="returns k iff the variate lies in (c_k, c_{k+1}]; exactly one variate consumed"),
+    H("c10_cached_infoset_sample", f"{EXT}::steps", "quick", functions=["CachedInfoset::sample"],
+      stubs=["H-draw hook: the Multinomial/thread_rng draw is an arbitrary index < len that is logged with the weights pointer"], playback=True,
+      bounds="2 actions; API sequence new, sample, sample, advance::<FIRST>, sample (both FIRST values)", role="one draw per pass, from the infoset's current strategy; reused within the pass; fresh draw after the update"),
+] + K_DRAW
+for _h in K_DRAW:
+    _h.playback = True
+
+REGISTRY["C09"] = {
+    "level": "model_checking",
+    "explanation": "The real compiled driver loop solve_generic_single (used by the Full and the chance-sampled method with one thread) is executed symbolically with its two callees "
+                   "replaced by ghost stubs: any sequence of per-infoset bounds, any threshold bit pattern, any budget up to the bound.",
+    "assumptions": ["stubs over-approximate the traversal/update (any non-negative bound sequence on the quarter grid)",
+                    "the multi-threaded drivers and the external-sampling driver loop are outside: Kani is sequential and CBMC does not get through solve_external_single's internal collect() constructions"],
+    "harnesses": K_DRIVER,
+}
+MANIFEST_TEXT["C09"] = {
+    "engine": "kani",
+    "technique": "bounded model checking (Kani/CBMC SAT) of the real single-thread driver loop with stubbed traversal/update",
+    "text": "For all 2^64 threshold bit patterns (NaN, +-0, negative, inf), every bound sequence on a quarter grid and every budget N<=3 (4 thorough), the loop of solve_generic_single runs exactly t* iterations (first t with max(b1,b2) strictly below r, else N), returns that iteration's per-player sums, never exceeds the budget and returns [inf,inf] for N=0. Counterexamples are confirmed by a native sweep through Game::solve.",
+    "note": "Claimed for the single-thread driver shared by Full and Sampled. The external-sampling driver and the multi-threaded drivers repeat the same comparison but could not be encoded (stated in DESIGN.md); their loops are outside this check.",
+}
+REGISTRY["C10"] = {
+    "level": "model_checking",
+    "explanation": "Bounded model checking of the categorical sampler against an integer inverse-CDF oracle for every generator word, and of the two cache state machines "
+                   "(chance infoset, opponent infoset) with the random draw replaced by a logged symbolic draw.",
+    "assumptions": ["rand's Standard f64 is (next_u64 >> 11) * 2^-53 (executed, not assumed); WeightedAliasIndex realises the weights it is given (third party, trusted)",
+                    "H-draw: under cfg(kani) the two production sampling sites call a logging nondeterministic draw instead of thread_rng"],
+    "harnesses": K_C10,
+}
+MANIFEST_TEXT["C10"] = {
+    "engine": "kani",
+    "technique": "bounded model checking (Kani/CBMC SAT) of Multinomial::sample over a symbolic RNG word and of the draw caches",
+    "text": "The solver shows for all 2^64 RNG words and all weight vectors k/8 (2..4 outcomes) that the sampler returns exactly the index of the cumulative interval containing the variate and consumes one variate; that SampledChance and CachedInfoset draw once per pass, reuse the cached outcome within the pass, draw afresh after reset/advance, and that the opponent's action is drawn from that infoset's current strategy.",
+    "note": "Which distribution the alias table realises (rand_distr) and ThreadRng uniformity are trusted. Sharing across chance nodes of one infoset during a traversal and the no-draw claim for the Full method are decided by the traversal-step harnesses listed in the evidence.",
+}
+REGISTRY["C08"] = {
+    "level": "model_checking",
+    "explanation": "Compositional: every discount/matching kernel against its documented formula, the update order inside advance() for all three infoset types, the iteration index "
+                   "used for the average (t, and t-1 for the first player in external sampling), the traversal steps, and the driver call sequence.",
+    "assumptions": ["exp/ln/powf are contract models (numeric value of finite non-zero exponents is outside)", "trajectory-level equality follows from the per-step facts by induction (argument, not a query)"],
+    "harnesses": K_DISCOUNT + [h for h in K_MATCH if h.name.startswith("c08")] + K_ADVANCE + [K_DRIVER[0]],
+}
+MANIFEST_TEXT["C08"] = {
+    "engine": "kani",
+    "technique": "bounded model checking (Kani/CBMC SAT) of kernels, update order, traversal steps and driver call sequence",
+    "text": "Each building block of the documented discounted-CFR iteration is decided against its formula for all inputs in bounds: discount factors 0, 1/2, 1 at -inf, 0, +inf; sign-wise regret discounting; average discount (t/(t+1))^gamma with the right t; regret matching and all fallbacks; presets; update order; one traversal and one update(t) per infoset per iteration; traversal steps for both players and chance. Composition into whole trajectories is an induction argument, not re-derived by the solver.",
+    "note": "libm values for finite non-zero exponents are abstracted (contract models); whole multi-iteration solves are out of reach for CBMC (23M variables for the trivial game).",
+}
+REGISTRY["C02"] = {
+    "level": "model_checking",
+    "explanation": "The inequality itself is the CFR theorem (trusted mathematics). Its hypotheses are code facts, each decided for all inputs in bounds: the per-infoset bound "
+                   "2*max(R,0)/t, the counterfactual regret accumulated by one traversal step, undiscounted accumulation under vanilla parameters, and the driver's per-player sum of the same iteration.",
+    "assumptions": ["Zinkevich et al. 2007, Theorem 3/4 (regret bound from counterfactual regrets)", "multi-threaded drivers outside"],
+    "harnesses": K_CUM + [K_ADVANCE[0], K_ADVANCE[1], K_DRIVER[0]],
+}
+MANIFEST_TEXT["C02"] = {
+    "engine": "kani",
+    "technique": "bounded model checking (Kani/CBMC SAT) of the code-level hypotheses of the CFR regret-bound theorem",
+    "text": "Compositional: the solver decides that the per-infoset bound is 2*max(R,0)/t (never negative, zero iff no positive regret), that one traversal step adds exactly the counterfactual regret and reach-weighted strategy, that vanilla parameters leave accumulators undiscounted, and that the driver returns per-player sums of the same iteration's values and stops only when their maximum is below the threshold. The bound-dominates-regret inequality then follows from the CFR theorem, which is trusted, not re-proved.",
+    "note": "No end-to-end comparison of bound and true regret is made by the solver (whole solves are out of reach). Thread counts > 1 are outside (see C06).",
 }
